@@ -6,6 +6,7 @@
 //   early_close_flag     C02.blockencoder.read.close_flag_only_on_the_last_packet_of_the_transfer
 //   interleave_zero      C13.blockencoder.read.none_only_when_the_source_is_used_up / ...lone_packet...interleave_blocks_zero
 //   first_block_failed   C08.blockencoder.read.lone_packet_only_for_an_empty_object.first_block_failed
+//   stream_interrupted   C20.blockencoder.read_block_stream.an_interrupted_read_is_retried (regression check, repaired by 58c2b7a)
 //   stream_cursor        C20.objectdesc.len.is_the_whole_source_length_whatever_the_cursor (regression check, no finding)
 use super::*;
 use crate::common::oti::Oti;
@@ -26,12 +27,19 @@ struct ChunkReader {
     pos: usize,
     chunk: usize,
     fail_reads: bool,
+    /// every other read() call answers ErrorKind::Interrupted (non-fatal, to be retried; nothing is consumed)
+    interrupt: bool,
+    calls: usize,
 }
 
 impl std::io::Read for ChunkReader {
     fn read(&mut self, buf: &mut [u8]) -> std::io::Result<usize> {
         if self.fail_reads {
             return Err(std::io::Error::new(std::io::ErrorKind::Other, "verif: read refused"));
+        }
+        self.calls += 1;
+        if self.interrupt && self.calls % 2 == 1 {
+            return Err(std::io::Error::new(std::io::ErrorKind::Interrupted, "verif: interrupted"));
         }
         let left = self.data.len().saturating_sub(self.pos);
         let n = buf.len().min(self.chunk).min(left);
@@ -81,7 +89,10 @@ fn file_from_stream(data: &[u8], chunk: usize, fail_reads: bool, oti: &Oti) -> A
 
 /// the stream is handed over with its cursor at `start` (compute_md5 == false, so nothing rewinds it before len())
 fn file_from_stream_at(data: &[u8], chunk: usize, fail_reads: bool, start: usize, oti: &Oti) -> Arc<filedesc::FileDesc> {
-    let rd = ChunkReader { data: data.to_vec(), pos: start, chunk, fail_reads };
+    file_from_reader(ChunkReader { data: data.to_vec(), pos: start, chunk, fail_reads, interrupt: false, calls: 0 }, oti)
+}
+
+fn file_from_reader(rd: ChunkReader, oti: &Oti) -> Arc<filedesc::FileDesc> {
     let obj = ObjectDesc::create_from_stream(Box::new(rd), "application/octet-stream", &url(), false, TransferConfig::default()).unwrap();
     mk_file(obj, oti)
 }
@@ -138,6 +149,29 @@ fn check_stream_short_reads(l: usize, e: u16, b: u16, chunk: usize, interleave: 
             format!("{{\"case\":\"stream_short_reads\",\"l\":{},\"e\":{},\"b\":{},\"chunk\":{},\"interleave\":{}}}", l, e, b, chunk, interleave),
             format!("stream source (reads return <= {} bytes): {}", chunk, show(&from_stream)),
             format!("the packet sequence of the same bytes supplied as a buffer: {}", show(&from_buffer)),
+        );
+        return true;
+    }
+    false
+}
+
+/// C20 (an_interrupted_read_is_retried): a reader that answers Interrupted every other call yields the packets of the buffer
+fn check_stream_interrupted(l: usize, e: u16, b: u16, chunk: usize) -> bool {
+    let oti = Oti::new_no_code(e, b);
+    let data = content(l);
+    let rd = ChunkReader { data: data.clone(), pos: 0, chunk, fail_reads: false, interrupt: true, calls: 0 };
+    let from_stream = drain(file_from_reader(rd, &oti), 2, true);
+    let from_buffer = drain(file_from_buffer(&data, &oti), 2, true);
+    if from_stream != from_buffer {
+        let show = |r: &std::result::Result<Vec<P>, String>| match r {
+            Ok(ps) => short(ps),
+            Err(s) => s.clone(),
+        };
+        report(
+            "read_block_stream",
+            format!("{{\"case\":\"stream_interrupted\",\"l\":{},\"e\":{},\"b\":{},\"chunk\":{}}}", l, e, b, chunk),
+            format!("reader answering ErrorKind::Interrupted every other call: {}", show(&from_stream)),
+            format!("the packets of the buffer source: {}", show(&from_buffer)),
         );
         return true;
     }
@@ -263,6 +297,8 @@ fn search() {
             check_stream_short_reads(num(&inp, "l"), num(&inp, "e") as u16, num(&inp, "b") as u16, num(&inp, "chunk"), num(&inp, "interleave"))
         } else if inp.contains("early_close_flag") {
             check_early_close_flag(num(&inp, "l"), num(&inp, "e") as u16, num(&inp, "b") as u8, num(&inp, "parity") as u8, num(&inp, "interleave"))
+        } else if inp.contains("stream_interrupted") {
+            check_stream_interrupted(num(&inp, "l"), num(&inp, "e") as u16, num(&inp, "b") as u16, num(&inp, "chunk"))
         } else if inp.contains("stream_cursor") {
             check_stream_cursor(num(&inp, "l"), num(&inp, "e") as u16, num(&inp, "b") as u16, num(&inp, "start"))
         } else if inp.contains("interleave_zero") {
@@ -276,7 +312,7 @@ fn search() {
     }
     let thorough = std::env::var("VERIF_TIER").map(|t| t == "thorough").unwrap_or(false);
     let mut evals: u64 = 0;
-    let mut found = [0usize; 5];
+    let mut found = [0usize; 6];
     let cap = 2;
 
     // the scenarios named in the report first
@@ -302,6 +338,10 @@ fn search() {
                         evals += 1;
                         if found[1] < cap && check_early_close_flag(l, e, b as u8, parity, interleave) { found[1] += 1; }
                     }
+                }
+                for chunk in [1usize, 3, 4096] {
+                    evals += 1;
+                    if found[5] < cap && check_stream_interrupted(l, e, b, chunk) { found[5] += 1; }
                 }
                 for start in [1usize, 3, l] {
                     evals += 1;
